@@ -28,7 +28,8 @@ Definition key_variants (k : skind) : list val :=
   match k with
   | SInt i => if is_signed i then [VInt 1; VInt (-3)] else [VInt 1; VInt 3]
   | SByte => [VInt 1; VInt 3]
-  | SF32 | SF64 => [fl 3 (-1); fl 2 0]
+  | SF32 => [fl 3 (-1); fl 2 0]
+  | SF64 => [fl 3 (-1); fl 16777217 0]      (* 2^24+1: exact in float64, not representable in float32 *)
   | SString => [VStr "a"; VStr "b"]
   | SBool => [VBool true; VBool false]
   end.
